@@ -746,8 +746,17 @@ asn_double2REAL(REAL_t *st, double dbl_value) {
 		}
     }
 
-	/* Remove parts of the exponent, leave mantissa and explicit 1. */
-	dscr[0] = 0x10 | (dscr[0] & 0x0f);
+	if(expval < DBL_MIN_EXP - 1) {
+		/*
+		 * Subnormal: there is no implicit 1 in front of the mantissa,
+		 * and the exponent is that of the smallest normal value.
+		 */
+		dscr[0] &= 0x0f;
+		expval = DBL_MIN_EXP - 1;
+	} else {
+		/* Remove parts of the exponent, leave mantissa and explicit 1. */
+		dscr[0] = 0x10 | (dscr[0] & 0x0f);
+	}
 
 	/* Adjust exponent in a very unobvious way */
 	expval -= 8 * ((mstop - dscr) + 1) - 4;
